@@ -1,9 +1,47 @@
+import RSVerif.Drive.C01
+import RSVerif.Drive.C02
+import RSVerif.Drive.C03
+import RSVerif.Drive.C04
+import RSVerif.Drive.C05
+import RSVerif.Drive.C06
+import RSVerif.Drive.C07
+import RSVerif.Drive.C08
+import RSVerif.Drive.C09
+import RSVerif.Drive.C10
 import RSVerif.Drive.C11
+import RSVerif.Drive.C12
+import RSVerif.Drive.C13
+import RSVerif.Drive.C14
+import RSVerif.Drive.C15
+import RSVerif.Drive.C16
+import RSVerif.Drive.C17
+import RSVerif.Drive.C18
+import RSVerif.Drive.C19
+import RSVerif.Drive.C20
 /- rsdriver <Cxx>: reads case lines on stdin, prints the model/spec prediction per line. Core Lean only. -/
 open RSVerif
 
 def handlerOf : String → Option (String → String)
+  | "C01" => some Drive.C01.handle
+  | "C02" => some Drive.C02.handle
+  | "C03" => some Drive.C03.handle
+  | "C04" => some Drive.C04.handle
+  | "C05" => some Drive.C05.handle
+  | "C06" => some Drive.C06.handle
+  | "C07" => some Drive.C07.handle
+  | "C08" => some Drive.C08.handle
+  | "C09" => some Drive.C09.handle
+  | "C10" => some Drive.C10.handle
   | "C11" => some Drive.C11.handle
+  | "C12" => some Drive.C12.handle
+  | "C13" => some Drive.C13.handle
+  | "C14" => some Drive.C14.handle
+  | "C15" => some Drive.C15.handle
+  | "C16" => some Drive.C16.handle
+  | "C17" => some Drive.C17.handle
+  | "C18" => some Drive.C18.handle
+  | "C19" => some Drive.C19.handle
+  | "C20" => some Drive.C20.handle
   | _ => none
 
 partial def loop (h : IO.FS.Stream) (out : IO.FS.Stream) (f : String → String) : IO Unit := do
